@@ -338,16 +338,31 @@ static size_t prunerReplica(size_t S, VList & arr, std::vector<OracleCall> & tra
     return std::distance(begin, bound);
 }
 
-// `warm`: a set pruned FIRST with the same Pruner object (its result is discarded): the object keeps its LP and `scale_`
-// between calls, and the second result must not depend on the first (the model starts every call from `reset()`)
+// `warm`: a set pruned FIRST with the same Pruner object (its result is discarded): the object keeps its LP between calls (the
+// solvers of the library hold one Pruner for all their calls), and the second result must not depend on the first.  When it
+// does, a `reuse` line carries both results and the `prune` line below describes the fresh object's call.
 static void emit_prune(const VList & in, size_t S, const VList * warm = nullptr) {
     { Line pre; pre << "#in" << "prune" << S << (size_t)in.size(); putVecs(pre, in); pre.emit(); }   // replay aid if the call below hangs or aborts
     VList arr = in;
-    Pruner pr(S);
-    if (warm) { VList w = *warm; pr(w.begin(), w.end()); std::puts("#stat prune_on_a_used_pruner 1"); }
     std::vector<Snap> snaps;
     size_t e;
-    { RecScope rs; auto it = pr(arr.begin(), arr.end()); e = (size_t)std::distance(arr.begin(), it); snaps = g_rec.snaps; }
+    bool usedOk = false;
+    if (warm) {
+        Pruner pr(S);
+        { VList w = *warm; pr(w.begin(), w.end()); }
+        VList used = in; std::vector<Snap> usnaps; size_t ue;
+        { RecScope rs; auto it = pr(used.begin(), used.end()); ue = (size_t)std::distance(used.begin(), it); usnaps = g_rec.snaps; }
+        VList fresh = in; Pruner pf(S); const size_t fe = (size_t)std::distance(fresh.begin(), pf(fresh.begin(), fresh.end()));
+        usedOk = ue == fe; for (size_t i = 0; usedOk && i < used.size(); ++i) usedOk = used[i] == fresh[i];
+        std::printf("#stat prune_on_a_used_pruner 1\n#stat used_pruner_%s 1\n", usedOk ? "same_result" : "different_result");
+        Line o; o << "C12" << "reuse" << S << (size_t)in.size() << (size_t)warm->size(); putVecs(o, in); putVecs(o, *warm);
+        o << "|" << ue; putVecs(o, used); o << fe; putVecs(o, fresh); o.emit();
+        if (usedOk) { arr = used; e = ue; snaps = usnaps; }
+    }
+    if (!usedOk) {
+        Pruner pr(S);
+        RecScope rs; auto it = pr(arr.begin(), arr.end()); e = (size_t)std::distance(arr.begin(), it); snaps = g_rec.snaps;
+    }
     VList arr2 = in; std::vector<OracleCall> trace;
     const size_t e2 = prunerReplica(S, arr2, trace);
     bool same = e2 == e && arr2.size() == arr.size();
